@@ -67,13 +67,17 @@ def prop_mpi(spec, ctx):
     if ref.gamma < 1.0:
         opt = ref.optimal()
         scale = 1 + float(np.max(np.abs(opt["V"])))
+        # the improvement steps keep the current action when another is better by less than np.isclose's tolerance
+        # (rtol 1e-5, atol 1e-8): the value may fall short of the optimum by that band times the horizon
+        band = (1e-5 * float(np.max(np.abs(opt["V"]))) + 1e-8) / (1 - ref.gamma)
+        dtol = max(TOL * scale, band)
         for s in states:
             v = float(res.state_value[view.S[s]])
-            ctx.check(abs(v - opt["V"][s]) <= TOL * scale, "C16.discounted_value_optimal",
-                      lambda: f"state {s}: {v} vs V* {opt['V'][s]}")
+            ctx.check(abs(v - opt["V"][s]) <= dtol, "C16.discounted_value_optimal",
+                      lambda: f"state {s}: {v} vs V* {opt['V'][s]} (tolerance {dtol})")
         ev = ref.evaluate(pi)
         for s in states:
-            ctx.check(abs(ev["V"][s] - opt["V"][s]) <= TOL * scale, "C16.discounted_policy_attains_optimum",
+            ctx.check(abs(ev["V"][s] - opt["V"][s]) <= dtol, "C16.discounted_policy_attains_optimum",
                       lambda: f"state {s}: V_pi {ev['V'][s]} vs V* {opt['V'][s]}")
         differs = any(abs(opt["Q"][s, a] - opt["V"][s]) > 1e-6 for s in states if not ref.absorbing[s]
                       for a in range(m) if ref.avail[s, a])
